@@ -54,7 +54,8 @@ def cases(tier, seed):
                     for side in ("below", "above"):
                         out.append({"kind": "gmrf_cfg", "N": N, "bc": bc, "order": 1, "pd": pd, "side": side})
             for bc in ("zero", "periodic", "neumann"):
-                for variant in range(2):
+                # variant 0/1: vector location (zero / random); 2: scalar location, also evaluated on a batch of columns
+                for variant in range(3):
                     out.append({"kind": "lmrf", "N": N, "bc": bc, "pd": pd, "variant": variant})
                     out.append({"kind": "cmrf", "N": N, "bc": bc, "pd": pd, "variant": variant})
     return out
@@ -176,6 +177,8 @@ def run_case(case, ctx):
         return
     variant = case["variant"]
     shift = np.zeros(n) if variant == 0 else rs.standard_normal(n)
+    if kind in ("lmrf", "cmrf") and variant == 2:
+        shift = float(rs.standard_normal())       # scalar location, broadcast by the library
     if kind == "gmrf":
         order = case["order"]
         R = S.diff_op(N, bc, order, pd)
@@ -251,6 +254,21 @@ def run_case(case, ctx):
         got2 = float(d.logd(x))
         if not ctx.close(got2, got, rtol=1e-12, atol=1e-12):
             ctx.violation("mrf_logd_vs_logpdf", _cfg(case), detail=f"N={N}: logd={got2} logpdf={got}")
+    if variant == 2:
+        # a matrix of column vectors (the layout of Samples.samples): either refused or one log-density per column
+        k = int(rs.choice([2, 3, 5]))
+        X = shift + rs.standard_normal((n, k))
+        kind_, val = core.outcome(d.logpdf, X)
+        ctx.count("mrf_batch_evaluated")
+        if kind_ == "refused":
+            ctx.refused("mrf batch", val)
+        elif kind_ == "crashed":
+            ctx.violation("crash", {**_cfg(case), "exc": type(val).__name__, "via": "batch"}, detail=repr(val))
+        else:
+            want = np.array([ref(X[:, j]) for j in range(k)])
+            got = np.asarray(val, dtype=float).ravel()
+            if got.shape != want.shape or not ctx.close(got, want, rtol=1e-10, atol=1e-9):
+                ctx.violation("mrf_batch_not_columnwise", _cfg(case), detail=f"N={N}: logpdf of a {X.shape} matrix of columns returned {np.asarray(val).shape} {got[:4]}, per column {want[:4]}")
     ctx.nontrivial()
 
 def selftest(ctx):
